@@ -29,7 +29,7 @@ ANCHORS = [("leuvenmapmatching/matcher/base.py", "BaseMatcher._build_node_path")
            ("leuvenmapmatching/matcher/base.py", "LatticeColumn.prune"),
            ("leuvenmapmatching/matcher/base.py", "BaseMatching.update")]
 FLOORS = {"cases_compared_across_processes": 800, "cases_with_two_final_candidates": 400, "permutations_judged": 1500,
-          "final_column_with_nonemitting_layer": 40, "exact_tie_in_final_column": 50, "string_label_cases": 300, "mirror_loop_cases": 300, "nonemitting_state_with_exactly_tied_predecessors": 100}
+          "final_column_with_nonemitting_layer": 40, "exact_tie_in_final_column": 50, "string_label_cases": 300, "mirror_loop_cases": 300, "diamond_cases": 300, "diamond_cases_with_nonemitting_on_path": 150, "nonemitting_state_with_exactly_tied_predecessors": 100}
 ASSUMPTIONS = ["hash-seed clause: canonical results (returned states, index, keys and log-probabilities of the best path) must be IDENTICAL across processes",
                "permutation clause: index and best probability equal (1e-9); paths may differ only through an exact tie: equal totals, or equal probability of the two alternatives at the first position where the paths diverge (what follows - e.g. the trailing non-emitting states after an early stop - is a consequence of that choice)"]
 HASHSEEDS = ["0", "1", "2", "3", "11", "17", "42", "99", "123", "1000", "31337", "4242"]
@@ -86,10 +86,42 @@ def gen_mirror_case(rng):
     return {"map": m, "trace": tr, "cfg": cfg, "unique": rng.random() < 0.5, "mirror": True}
 
 
+def gen_diamond_case(rng):
+    """one-way chain in which two alternative roads of different length leave one node and rejoin (no ties), observed so
+    sparsely that both gaps are bridged by non-emitting states: the state after the rejoin is reached from two predecessors
+    at the same non-emitting depth; which one is listed first must not matter."""
+    u = rng.choice([1.0, 10.0, 25.0])
+    xs = [-4.0, 1.0, None, None, 8.0, 10.0, 13.2, 16.0, 20.0]
+    pts = {"A": (0.0, -4.0), "B": (0.0, 1.0), "C": (rng.uniform(-0.5, -0.1), rng.uniform(4.5, 6.5)), "D": (rng.uniform(0.1, 0.6), rng.uniform(3.5, 5.5)),
+           "E": (0.0, 8.0), "F": (0.0, 10.0), "G": (rng.uniform(-0.3, 0.3), 13.2), "H": (0.0, 16.0), "I": (0.0, 20.0)}
+    names = list(pts)
+    ids = rng.sample(range(1, 80), len(names))
+    lab = dict(zip(names, ids if rng.random() < 0.5 else ["N%d" % v for v in ids]))
+    edges = [("A", "B"), ("B", "C"), ("B", "D"), ("C", "E"), ("D", "E"), ("E", "F"), ("F", "G"), ("G", "H"), ("H", "I")]
+    if rng.random() < 0.3:
+        pts["K"] = (rng.uniform(0.8, 1.2), rng.uniform(4.0, 6.0))
+        lab["K"] = (max(ids) + 1) if isinstance(lab["A"], int) else "N%d" % (max(ids) + 1)
+        edges += [("B", "K"), ("K", "E")]
+    rng.shuffle(edges)
+    nodes = [[lab[k], [v[0] * u, v[1] * u]] for k, v in pts.items()]
+    rng.shuffle(nodes)
+    m = {"nodes": nodes, "edges": [[lab[a], lab[b]] for a, b in edges], "latlon": False, "kind": "diamond"}
+    tr = [[0.1 * u, -2.0 * u], [0.1 * u, rng.choice([9.0, 9.5, 11.0]) * u], [0.1 * u, rng.choice([17.0, 19.0]) * u]]
+    cfg = gen.gen_cfg(rng, families=("distance", "distance", "simple", "newsonkrumm"), ne=True, width="maybe", cut=False)
+    cfg["obs_noise"] = 0.5 * u
+    cfg["obs_noise_ne"] = rng.choice([None, 1.0 * u])
+    cfg["dist_noise"] = rng.choice([None, 0.5 * u]) if cfg["family"] == "distance" else None
+    cfg["max_dist"] = rng.choice([None, 3.0 * u])
+    cfg["restrained_ne"] = rng.random() < 0.5
+    return {"map": m, "trace": tr, "cfg": cfg, "unique": rng.random() < 0.5, "diamond": True}
+
+
 def gen_case(rng, i, tier):
     if i % 6 == 1:
         return gen_mirror_case(rng)
-    case = mcase.gen_mcase(rng, width="maybe", tighten_p=0.0, sparse_p=0.3, max_obs=8,
+    if i % 6 == 4:
+        return gen_diamond_case(rng)
+    case = mcase.gen_mcase(rng, families=gen.FAMILIES_ALL, width="maybe", tighten_p=0.0, sparse_p=0.3, max_obs=8,
                            kinds=("random", "grid", "grid", "chain", "chain_dyadic"), labels=("int", "str", "str", "gap", "strrev"),
                            hostile=True)
     r = rng.random()
@@ -136,6 +168,10 @@ def check_case(ctx, case):
     # statistics and the permutation clause only in the first process set
     if any(isinstance(l, str) for l, _ in case["map"]["nodes"]):
         ctx.count("string_label_cases")
+    if case.get("diamond"):
+        ctx.count("diamond_cases")
+        if any(x.obs_ne for x in (mt.lattice_best or [])):
+            ctx.count("diamond_cases_with_nonemitting_on_path")
     if case.get("mirror"):
         ctx.count("mirror_loop_cases")
         if mt.lattice:
@@ -177,7 +213,7 @@ def check_case(ctx, case):
         if c["empty"] != c2["empty"] or c["idx"] != c2["idx"]:
             report("index-differs", f"idx {c['idx']} vs {c2['idx']}")
         elif not c["empty"]:
-            if abs(c["best"] - c2["best"]) > 1e-9 * max(1.0, abs(c["best"])):
+            if not oracles.close(c["best"], c2["best"]):
                 report("best-probability-differs", f"{c['best']!r} vs {c2['best']!r}")
             elif [k for k, _ in c["path"]] != [k for k, _ in c2["path"]]:
                 p1, p2 = c["path"][-1][1], c2["path"][-1][1]
